@@ -54,9 +54,12 @@ func (v *Vue) evalAttributes(ctx VueContext, n *html.Node) (map[string]any, erro
 			if err != nil {
 				return nil, fmt.Errorf("error evaluating attr %s: %w", boundName, err)
 			}
-			if !helpers.IsTruthy(boundValue) {
+			if boundValue == nil {
+				// undefined or nil: nothing is bound
 				continue
 			}
+			// Falsy values are not rendered as attributes (second pass), but they are still
+			// part of the evaluated attribute map: an include passes them on as props.
 			if _, seen := results[boundName]; !seen {
 				boundOrder = append(boundOrder, boundName)
 			}
@@ -79,6 +82,9 @@ func (v *Vue) evalAttributes(ctx VueContext, n *html.Node) (map[string]any, erro
 	// Second pass: merge bound attributes with static ones
 	for _, attrName := range boundOrder {
 		boundValue := results[attrName]
+		if !helpers.IsTruthy(boundValue) {
+			continue
+		}
 		// Check if there's a static attribute with the same name
 		staticIdx := -1
 		for i, a := range newAttrs {
@@ -162,7 +168,8 @@ func (v *Vue) evalBoundAttribute(ctx VueContext, attrName, expr string) (any, er
 	if ok {
 		return valResolved, nil
 	}
-	return "", nil
+	// undefined: nothing to bind
+	return nil, nil
 }
 
 // evalObjectBinding evaluates object literals like {display: "none"} or {active: true, error: false}
